@@ -497,11 +497,69 @@ pub fn replay_line(ctx: &mut Ctx, prop: &str, l: &str) -> bool {
     }
 }
 
+/// the two public decision functions the read loops consult, on every TINY / every version / every other kind
+fn decision_functions(ctx: &mut Ctx, prop: &str, pool: &Pool, compressed: bool) {
+    let sb = size_byte(compressed, 4);
+    if prop == "C07" {
+        for reqi in 0..=255u8 {
+            for subt in 0..=40u8 {
+                let f = vec![sb, 3, reqi, subt];
+                let p = match packet_of(compressed, &f) { Some(p) => p, None => continue };   // undefined sub-type: a decode error
+                ctx.oracle_eval("maybe_pong");
+                let is_ka = reqi == 0 && subt == 0;
+                let pong = guard(std::panic::AssertUnwindSafe(|| p.maybe_pong()));
+                let pong_bytes = pong.clone().flatten().and_then(|q| Codec::new(mode_of(compressed)).encode(&q).ok().map(|b| b.to_vec()));
+                let via_tiny = if let Packet::Tiny(t) = &p { Some(t.is_keepalive()) } else { None };
+                let ok = match (&pong, is_ka) { (Some(Some(_)), true) => pong_bytes.as_deref() == Some(&[sb, 3, 0, 0][..]), (Some(None), false) => true, _ => false };
+                if !ok {
+                    ctx.violation("c07/maybe_pong", "Packet::maybe_pong does not answer exactly the keep-alive (TINY_NONE with request id 0) with a keep-alive", &format!("tiny {}", hex(&f)), if is_ka { "Some(keep-alive)" } else { "None" }, &format!("{:?}", pong_bytes.map(|b| hex(&b))));
+                }
+                if via_tiny != Some(is_ka) {
+                    ctx.violation("c07/is_keepalive", "Tiny::is_keepalive disagrees with 'TINY_NONE with request id 0'", &format!("tiny {}", hex(&f)), &is_ka.to_string(), &format!("{:?}", via_tiny));
+                }
+            }
+        }
+        for (_, f) in &pool.by_type {
+            if f[1] == 3 { continue; }
+            if let Some(p) = packet_of(compressed, f) {
+                ctx.oracle_eval("maybe_pong");
+                if guard(std::panic::AssertUnwindSafe(|| p.maybe_pong().is_some())) != Some(false) {
+                    ctx.violation("c07/maybe_pong/other-kind", "a packet that is not a keep-alive is answered", &format!("pkt {}", hex(f)), "None", "Some");
+                }
+            }
+        }
+    }
+    if prop == "C09" {
+        for v in 0..=255usize {
+            for reqi in [0u8, 1, 255] {
+                let mut f = pool.ver[v].clone(); f[2] = reqi;
+                let p = match packet_of(compressed, &f) { Some(p) => p, None => continue };
+                ctx.oracle_eval("maybe_verify_version");
+                let r = guard(std::panic::AssertUnwindSafe(|| p.maybe_verify_version().map_err(|e| format!("{:?}", e))));
+                let ok = match (&r, v) { (Some(Ok(true)), 9) => true, (Some(Err(e)), x) if x != 9 => e.contains(&format!("IncompatibleVersion({})", x)), _ => false };
+                if !ok {
+                    ctx.violation("c09/maybe_verify_version", "Packet::maybe_verify_version is not 'Ok(true) for version 9, IncompatibleVersion(v) otherwise'", &format!("ver {}", hex(&f)), if v == 9 { "Ok(true)" } else { "Err(IncompatibleVersion(v))" }, &format!("{:?}", r));
+                }
+            }
+        }
+        for (_, f) in &pool.by_type {
+            if f[1] == 2 { continue; }
+            if let Some(p) = packet_of(compressed, f) {
+                ctx.oracle_eval("maybe_verify_version");
+                if guard(std::panic::AssertUnwindSafe(|| matches!(p.maybe_verify_version(), Ok(false)))) != Some(true) {
+                    ctx.violation("c09/maybe_verify_version/other-kind", "a packet that is not IS_VER does not pass the gate", &format!("pkt {}", hex(f)), "Ok(false)", "other");
+                }
+            }
+        }
+    }
+}
+
 /// the shared generator: frame sequences x partitions x faults x flavours x modes
 pub fn generate_reads(ctx: &mut Ctx, prop: &str) {
     let quick = ctx.quick();
     for compressed in [true, false] {
         let pool = build_pool(compressed);
+        decision_functions(ctx, prop, &pool, compressed);
         ctx.count(&format!("pool kinds decodable from a zero body ({})", mode_tok(compressed)));
         *ctx.distribution.entry(format!("pool.kinds.{}", mode_tok(compressed))).or_insert(0) = pool.by_type.len() as u64;
         let ka = vec![size_byte(compressed, 4), 3, 0, 0];
